@@ -132,7 +132,12 @@ pub fn run(tier: Tier, seed: u64) -> i32 {
         };
         let mut body = vec![];
         if case.declare_v {
-            body.push(Stmt::Declare("V".into(), lit(0)));
+            // a virtual signal is 64 bits wide also when it merely renames a narrow output
+            let bits = case.sigs.iter().find(|s| s.name == "Q").map(|s| s.bits).unwrap_or(0);
+            body.push(Stmt::Declare("V".into(), match bits % 3 { 0 => lit(0), 1 => name("Q"), _ => group(name("Q")) }));
+            if bits % 3 != 0 {
+                st.witness("virtual_signal_that_renames_a_narrow_output");
+            }
         }
         // values for this path: via a 64-bit device output read back by the row, or as hex literals
         let vals: Vec<i64> = if via_device { values.clone() } else { values.iter().copied().filter(|v| *v >= 0).collect() };
@@ -145,11 +150,15 @@ pub fn run(tier: Tier, seed: u64) -> i32 {
             }
             script.push(Step::Ans(ans(0)));
         } else {
+            // every row twice; the driver fails at every seventh call and the caller carries on: a
+            // row that repeats the values of a row whose call failed is still sent in full
             for (i, v) in vals.iter().enumerate() {
-                body.push(Stmt::Row(with_prefix((0..ncol).map(|j| Entry::Lit(if case.mixed { vals[(i + 37 * j) % vals.len()] } else { *v }, Radix::Hex)).collect())));
+                for _ in 0..2 {
+                    body.push(Stmt::Row(with_prefix((0..ncol).map(|j| Entry::Lit(if case.mixed { vals[(i + 37 * j) % vals.len()] } else { *v }, Radix::Hex)).collect())));
+                }
             }
-            for _ in 0..=vals.len() {
-                script.push(Step::Ans(ans(0)));
+            for c in 0..=2 * vals.len() {
+                script.push(if c % 7 == 3 { Step::Fault(70) } else { Step::Ans(ans(0)) });
             }
         }
         // a row that cannot be evaluated (error item without a call) between value rows: the rows
@@ -170,7 +179,10 @@ pub fn run(tier: Tier, seed: u64) -> i32 {
         let prog = Program { header: header.clone(), body };
         let text = text(&prog);
         let mut env = ScriptEnv::new(&script);
-        let r = crate::refsem::run_opts2(&prog, &case.sigs, &mut env, Fuel { steps: 5000, rows: 1000 }, false, true);
+        let r = crate::refsem::run_opts2(&prog, &case.sigs, &mut env, Fuel { steps: 5000, rows: 1000 }, true, true);
+        if r.items.iter().any(|i| matches!(i, RefItem::DriverErr(_))) {
+            st.witness("row_repeated_after_a_failed_call");
+        }
         assert!(r.end == RefEnd::Done, "C07 harness: reference did not finish: {:?}", r.end);
         let mut opts = RunOpts::new(r.items.len() + 1);
         opts.after_end = 0;
@@ -229,6 +241,31 @@ pub fn run(tier: Tier, seed: u64) -> i32 {
                 }
             }
         }
+        if mism.is_none() && case.mixed && !via_device {
+            // `TestCase::signals` is a public field: the widths in force are those the test case
+            // holds when it is run, also if they were edited after loading
+            let mut sigs2 = case.sigs.clone();
+            let widths: Vec<usize> = sigs2.iter().map(|s| s.bits).collect();
+            for (i, s) in sigs2.iter_mut().enumerate() {
+                if s.name != "R" {
+                    s.bits = 65 - widths[i];
+                }
+            }
+            if let Ok(mut tc) = load(&text, &case.sigs, DEFAULT_BUDGET) {
+                for s in tc.signals.iter_mut() {
+                    if let Some(n) = sigs2.iter().find(|x| x.name == s.name) {
+                        s.bits = n.bits;
+                    }
+                }
+                let mut env = ScriptEnv::new(&script);
+                let r2 = crate::refsem::run_opts2(&prog, &sigs2, &mut env, Fuel { steps: 5000, rows: 1000 }, true, true);
+                let obs2 = run_loaded(&tc, &sigs2, true, &script, &opts);
+                st.witness("width_edited_after_loading");
+                if let Some((_, m)) = run_mismatch(&r2, &obs2, proj, None) {
+                    mism = Some(format!("{m} [after the widths of the loaded test's signals were edited to {}]", sigs2.iter().map(|s| s.show()).collect::<Vec<_>>().join(", ")));
+                }
+            }
+        }
         if let Some(m) = mism {
             let class = classify(&m);
             let summary = format!("case: {}\nvalues {}\nsignals: {}\nfirst difference at {m}", case.name, if via_device { "read back from device output R" } else { "as hex literals" }, case.sigs.iter().map(|s| s.show()).collect::<Vec<_>>().join(", "));
@@ -244,7 +281,7 @@ pub fn run(tier: Tier, seed: u64) -> i32 {
             "oracle: v mod 2^bits as unsigned bit pattern (refsem::mask); a reduction of the form v & M is pinned exactly by the single-bit values, the others guard against non-mask implementations".into(),
             "values outside the boundary set are not enumerated (2^64 domain, see DESIGN section 10)".into(),
         ],
-        required_witnesses: vec!["width_64", "width_63", "width_1", "value_read_back_from_64_bit_device_output", "value_as_hex_literal", "column_bound_to_two_signals_of_different_width", "signals_of_different_widths_side_by_side", "rows_after_a_row_that_could_not_be_evaluated"],
+        required_witnesses: vec!["width_64", "width_63", "width_1", "value_read_back_from_64_bit_device_output", "value_as_hex_literal", "column_bound_to_two_signals_of_different_width", "signals_of_different_widths_side_by_side", "virtual_signal_that_renames_a_narrow_output", "row_repeated_after_a_failed_call", "width_edited_after_loading", "rows_after_a_row_that_could_not_be_evaluated"],
         exhaustive_note: "all widths x all boundary values x all listed paths; quick = thorough".into(),
         e1: false,
     };
